@@ -56,9 +56,10 @@ Proof.
   induction evs as [|e r IH]; intros n resps H.
   - destruct resps; [reflexivity|discriminate].
   - destruct resps as [|p ps]; [discriminate|]. cbn [all2] in H. apply andb_prop in H. destruct H as [Hp Hr].
-    destruct e as [name k resp|name resp|name k uo|i]; cbn [reqs_of tevs_of tev_of].
-    + destruct p as [x|x| |]; simpl in Hp; try discriminate. apply get_eqb_sound in Hp. subst. f_equal. apply IH. exact Hr.
-    + destruct p as [x|x| |]; simpl in Hp; try discriminate. apply upd_eqb_sound in Hp. subst. f_equal. apply IH. exact Hr.
+    destruct e as [name k resp|name resp|name k uo|i|i]; cbn [reqs_of tevs_of tev_of].
+    + destruct p as [x|x| | |]; simpl in Hp; try discriminate. apply get_eqb_sound in Hp. subst. f_equal. apply IH. exact Hr.
+    + destruct p as [x|x| | |]; simpl in Hp; try discriminate. apply upd_eqb_sound in Hp. subst. f_equal. apply IH. exact Hr.
+    + f_equal. apply IH. exact Hr.
     + f_equal. apply IH. exact Hr.
     + f_equal. apply IH. exact Hr.
 Qed.
@@ -84,7 +85,7 @@ Proof.
   induction evs as [|e r IH]; intros q c Hq.
   - simpl in Hq. destruct q; inversion Hq; reflexivity.
   - simpl in H. apply andb_prop in H. destruct H as [He Hr].
-    destruct e as [name k resp|name resp|name k uo|i]; simpl in Hq; try (apply (IH Hr q c Hq)).
+    destruct e as [name k resp|name resp|name k uo|i|i]; simpl in Hq; try (apply (IH Hr q c Hq)).
     destruct q as [|q'].
     + simpl in Hq. subst resp. exact He.
     + apply (IH Hr q' c Hq).
@@ -171,7 +172,7 @@ Proof.
   (* the model's own trace satisfies the predicate, for the model's own filter *)
   assert (Hstat : forall (b : option value) (q : nat) c, rule b q = inr c -> is_status c = true).
   { apply hybrid_status. rewrite forallb_forall in *. intros e He. specialize (Hce e He).
-    destruct e as [| n [v|c] | |]; auto. }
+    destruct e as [| n [v|c] | | |]; auto. }
   pose proof (@model_satisfies_property value rmask nat value_eqb (VM []) f eqv clock rule dev_names
                 value_eqb_refl value_eqb_eq Hstat (Some init) (reqs_of 0 evs)) as Hm.
   unfold trace_of_run, plain_run in Hm.
@@ -191,7 +192,7 @@ Proof.
   - simpl. exact Hci.
   - cbn [t_evs]. apply Forall_forall. intros e He.
     unfold guard_core in Hg. rewrite forallb_forall in Hg, Hce. specialize (Hg e He). specialize (Hce e He).
-    destruct e as [n k r|n [v|c]|n k uo|i]; simpl; auto.
+    destruct e as [n k r|n [v|c]|n k uo|i|i]; simpl; auto.
     + destruct k; [exact Hg|exact I].
     + destruct k; [exact Hg|exact I].
 Qed.
